@@ -7,6 +7,8 @@ package apphelp
 import (
 	"crypto/sha256"
 	"fmt"
+	"os"
+	"runtime/debug"
 	"sort"
 	"testing"
 	"time"
@@ -47,6 +49,9 @@ func (w *World) Try(f func(ctx sdk.Context) error) (out Outcome) {
 		defer func() {
 			if r := recover(); r != nil {
 				out = Outcome{OK: false, Panicked: true, Err: fmt.Sprint(r)}
+				if os.Getenv("VERIF_STACK") != "" {
+					fmt.Printf("PANIC %v\n%s\n", r, debug.Stack())
+				}
 			}
 		}()
 		if err := f(cc); err != nil {
